@@ -83,6 +83,8 @@ def build_harness(profile="release"):
         if not os.path.exists(lock_dst):
             import shutil
             shutil.copy(lock_src, lock_dst)
+        with open(os.path.join(HARNESS_DIR, "Cargo.toml.in")) as f:
+            write_if_changed(os.path.join(HARNESS_DIR, "Cargo.toml"), f.read().replace("@REPO@", REPO))
         env = dict(ENV)
         env["CARGO_TARGET_DIR"] = TARGET
         cmd = ["cargo", "build", "--offline"] + (["--release"] if profile == "release" else [])
@@ -233,8 +235,20 @@ def scan_forbidden():
 
 
 def coq_project_files():
-    with open(os.path.join(COQ, "_CoqProject")) as f:
-        return [l.strip() for l in f if l.strip().endswith(".v")]
+    """Every .v file under coq/ (model, gen/, proofs/, Properties/), sorted."""
+    out = []
+    for root, dirs, files in os.walk(COQ):
+        dirs.sort()
+        for fn in sorted(files):
+            if fn.endswith(".v") and not fn.startswith("."):
+                out.append(os.path.relpath(os.path.join(root, fn), COQ))
+    return sorted(out)
+
+
+def write_coq_project():
+    txt = ("-Q . Blots\n-arg -w -arg -notation-overridden,-deprecated-hint-without-locality,"
+           "-deprecated-instance-without-locality\n" + "\n".join(coq_project_files()) + "\n")
+    return write_if_changed(os.path.join(COQ, "_CoqProject"), txt)
 
 
 def coq_make(targets, timeout=3000):
@@ -243,6 +257,7 @@ def coq_make(targets, timeout=3000):
     with Lock("coq"):
         mk = os.path.join(COQ, "Makefile")
         proj = os.path.join(COQ, "_CoqProject")
+        write_coq_project()
         if (not os.path.exists(mk)) or os.path.getmtime(mk) < os.path.getmtime(proj):
             rc, out, err = sh(["coq_makefile", "-f", "_CoqProject", "-o", "Makefile"], cwd=COQ)
             if rc != 0:
@@ -393,6 +408,10 @@ def load_known(pid):
     with open(p) as f:
         data = json.load(f)
     return [e for e in data.get("findings", []) if e.get("property") == pid]
+
+
+def open_known(pid):
+    return [e for e in load_known(pid) if e.get("status") == "open"]
 
 
 class Result:
